@@ -27,7 +27,7 @@ FLOATS = {"f32": 32, "f64": 64}
 PRIMS = list(INTS) + list(FLOATS) + ["bool", "char", "DiplomatChar"]
 SLICE_PRIMS = list(INTS) + list(FLOATS) + ["bool", "DiplomatByte"]
 
-KEYWORD_PARAMS = ["int", "class", "default", "new", "register", "template", "char", "double", "typename",
+KEYWORD_PARAMS = ["this", "int", "class", "default", "new", "register", "template", "char", "double", "typename",
                   "namespace", "delete", "operator", "signed", "union", "volatile", "auto", "switch", "short", "long",
                   # not reserved themselves, but become reserved words once a backend re-cases them (lowerCamelCase drops the underscores)
                   "new_", "in_", "for_", "default_", "_new", "with_", "delete_", "class_", "_class", "import_", "var_", "function_"]
